@@ -325,13 +325,31 @@ hlib.encoded(lease_mod.LeaseInfo.to_immutable_data, lease_mod.LeaseInfo.from_imm
 _RS, _CS, _NID = b"r" * 32, b"c" * 32, b"n" * 20
 
 
-def h_lease_roundtrip(owner: int, exp: int, mutable: bool) -> bool:
+_SECRETS = [b"r" * 32, b"r" * 31 + b"\x00", b"\x00" * 32, b"c" * 30 + b"\x00\x00", b"\x00" + b"c" * 31]
+
+
+class _NoPatch(object):
+    def __enter__(self):
+        return self
+
+    def __exit__(self, *a):
+        return False
+
+
+def h_lease_roundtrip(owner: int, exp: int, mutable: bool, rk: int, ck: int, real_struct: bool) -> bool:
     """
-    pre: 0 <= owner < 2**32 and 0 <= exp < 2**32
+    pre: 0 <= owner < 2**32 and 0 <= exp < 2**32 and 0 <= rk < 5 and 0 <= ck < 5
+    pre: (not real_struct) or (owner in (0, 1, 2**32 - 1) and exp in (0, 1800000000, 2**32 - 1))
     post: _ == True
     """
-    with _Patched():
-        li = lease_mod.LeaseInfo(owner_num=owner, renew_secret=_RS, cancel_secret=_CS, expiration_time=exp,
+    # full-width 32-byte secrets, including ones that end (or start) with NUL bytes or are all NUL; with FakeStruct the
+    # integer fields are arbitrary 32-bit values, with the real struct module they are pinned to boundary values
+    rs, cs = _SECRETS[_pin(rk, 0, 4)], _SECRETS[_pin(ck, 0, 4)]
+    if real_struct:
+        owner = [v for v in (0, 1, 2 ** 32 - 1) if owner == v][0]
+        exp = [v for v in (0, 1800000000, 2 ** 32 - 1) if exp == v][0]
+    with (_NoPatch() if real_struct else _Patched()):
+        li = lease_mod.LeaseInfo(owner_num=owner, renew_secret=rs, cancel_secret=cs, expiration_time=exp,
                                  nodeid=_NID if mutable else None)
         if mutable:
             data = li.to_mutable_data()
@@ -345,12 +363,16 @@ def h_lease_roundtrip(owner: int, exp: int, mutable: bool) -> bool:
         return "record size differs from the declared size"
     if back.owner_num != owner or back.get_expiration_time() != exp:
         return "owner / expiration do not round-trip"
-    if back.renew_secret != _RS or back.cancel_secret != _CS:
-        return "secrets swapped or lost"
+    if back.renew_secret != rs or back.cancel_secret != cs:
+        return "secrets swapped, lost or altered (e.g. trailing NUL bytes stripped)"
     if mutable and back.nodeid != _NID:
         return "nodeid lost"
     if (not mutable) and back.nodeid is not None:
         return "immutable lease grew a nodeid"
+    if not (back.is_renew_secret(rs) and back.is_cancel_secret(cs)):
+        return "decoded lease does not accept its own secrets"
+    if rs != cs and (back.is_renew_secret(cs) or back.is_cancel_secret(rs)):
+        return "decoded lease accepts the wrong secret"
     return True
 
 
